@@ -72,7 +72,7 @@ PROPS = {
         units=[
         unit("c12-rules", "route", ROUTE_COMMON + ["route/sched_test.go", "route/c12_test.go"], "^TestVerifC12", engines=SCHED),
         unit("c12-http", "proxy", PROXY_COMMON + ["proxy/c12_test.go"], "^TestVerifC12"),
-        unit("c12-tcp", "proxy/tcp", TCP_COMMON + ["tcp/c10_test.go", "tcp/c09_test.go"], "^TestVerifC12", engines=SCHED + ["vhook", "vnet"], sched_env={"GOMAXPROCS": "1"},
+        unit("c12-tcp", "proxy/tcp", TCP_COMMON + ["tcp/c10_test.go", "tcp/c09_test.go"], "^TestVerifC12TCP", engines=SCHED + ["vhook", "vnet"], sched_env={"GOMAXPROCS": "1"},
              rewrite=[{"files": ["proxy/tcp/tcp_proxy.go", "proxy/tcp/sni_proxy.go", "proxy/tcp/tcp_dynamic_proxy.go"], "opts": ["-go", "-chan", "-sel", "net.DialTimeout=vhook.DialTimeout"]}]),
     ], layers={"quick": ["c12-rules", "c12-http", "c12-tcp"], "thorough": ["c12-rules", "c12-http", "c12-tcp"]}),
     "C07": dict(level="exploration", engine="benum",
@@ -109,17 +109,21 @@ PROPS = {
         level_text="Every documented log field over the event product (times incl. non-UTC zones, durations, sizes, statuses, addresses with/without port, headers), stock formats and all two-field concatenations with literal text, invalid formats; uint16base16 on all 2^16 values, i32toa on all 2^32 values (thorough) or boundaries + lattice (quick), atoi on boundaries + 10^5/10^6 lattice x pads, uuid.ToString on every byte position x value.",
         level_note="For $remote_host/$upstream_host on a bracketed IPv6 address both the bracketed and the net.SplitHostPort form are accepted (the statement does not choose). Negative durations are outside the alphabet.",
         units=[
-        unit("c20-logger", "logger", ["logger/c20_test.go"], "^TestVerifC20"),
+        unit("c20-logger", "logger", ["logger/c20_test.go", "logger/c20_sched_test.go"], "^TestVerifC20(Fields|Formats|Atoi)", engines=SCHED),
+        unit("c20-sched", "logger", ["logger/c20_test.go", "logger/c20_sched_test.go"], "^TestVerifC20Sched", engines=SCHED, race=True, sched_env={"GOMAXPROCS": "1"}, shards={"quick": 1, "thorough": 8},
+             rewrite=[{"files": ["logger/logger.go"], "opts": ["-imports", "-stmt"]}]),
         unit("c20-formatters", "proxy", PROXY_COMMON + ["proxy/c20_test.go"], "^TestVerifC20"),
         unit("c20-uuid", "uuid", ["uuid/c20_test.go"], "^TestVerifC20"),
-    ], layers={"quick": ["c20-fields", "c20-formats", "c20-atoi", "c20-formatters", "c20-uuid"], "thorough": ["c20-fields", "c20-formats", "c20-atoi", "c20-formatters", "c20-uuid"]}),
+    ], layers={"quick": ["c20-fields", "c20-formats", "c20-atoi", "c20-formatters", "c20-uuid", "c20-sched"], "thorough": ["c20-fields", "c20-formats", "c20-atoi", "c20-formatters", "c20-uuid", "c20-sched"]}),
     "C10": dict(level="exploration", engine="benum",
         technique="bounded-exhaustive ClientHello corpus from the real crypto/tls client + every truncation and single-byte substitution, differential against tls.Server on the same bytes",
         level_text="432+ ClientHellos emitted by the real crypto/tls client over the product of version windows, names, ALPN, cipher and curve lists, resumption, plus hand-assembled edge hellos; each is parsed by fabio's 9-byte peek + clientHelloBufferSize + readServerName and by tls.Server (GetConfigForClient) on the same bytes. Every prefix of every hello and every single-byte substitution (12 values) at every offset is parsed: no panic (Go bounds checks make no-panic equal memory safety), buffer bounded by the first record, and names agree whenever the TLS stack still accepts the mutated bytes. clientHelloBufferSize on all 2^16 record lengths.",
         level_note="Hellos from other TLS implementations are represented only by the hand-assembled variants. A mutated hello that the Go TLS stack accepts but fabio's older parser rejects is counted, not flagged (the statement only quantifies well-formed hellos).",
         units=[
-        unit("c10", "proxy/tcp", TCP_COMMON + ["tcp/c10_test.go"], "^TestVerifC10"),
-    ], layers={"quick": ["c10-sni"], "thorough": ["c10-sni"]}),
+        unit("c10", "proxy/tcp", TCP_COMMON + ["tcp/c10_test.go", "tcp/c09_test.go"], "^TestVerifC10SNI", engines=SCHED + ["vhook", "vnet"]),
+        unit("c10-segments", "proxy/tcp", TCP_COMMON + ["tcp/c10_test.go", "tcp/c09_test.go"], "^TestVerifC10Segments", engines=SCHED + ["vhook", "vnet"], sched_env={"GOMAXPROCS": "1"}, shards={"quick": 8, "thorough": 16},
+             rewrite=[{"files": ["proxy/tcp/tcp_proxy.go", "proxy/tcp/sni_proxy.go", "proxy/tcp/tcp_dynamic_proxy.go"], "opts": ["-go", "-chan", "-sel", "net.DialTimeout=vhook.DialTimeout"]}]),
+    ], layers={"quick": ["c10-sni", "c10-segments"], "thorough": ["c10-sni", "c10-segments"]}),
     "C11": dict(level="model_checking", engine="vsched",
         technique="bounded-exhaustive certificate-set x server-name selection (incl. real handshakes) + explicit enumeration of source histories through the real watch loop + stateless model checking of set replacement vs handshakes",
         level_text="(selection) every ordered list of up to 3 of 6 generated leafs x 10 server names x strict/non-strict against the stated exact -> wildcard -> first/none rule, through getCertificate and real in-memory handshakes. (histories) every history up to length 4 (thorough 5) of 7 kinds of source answers through the real cert.watch with virtual sleep: published sets, never publishing bad material, no spinning. (schedules) every interleaving up to the reported bound of a publisher, the store's applier goroutine and 1-2 handshake threads.",
